@@ -310,7 +310,7 @@ def _build_catalogue_body():
     from pyubx2.ubxtypes_configdb import UBX_CONFIG_DATABASE  # pylint: disable=import-outside-toplevel
 
     rng = core.stream(13, "catalogue")
-    ops, fam = [], {"parse": [], "aborted": [], "new": [], "cfg": [], "tp5": [], "mutate": [], "inspect": [], "variant": [], "read": [], "eqv": [], "arrays": [], "dupkey": []}
+    ops, fam = [], {"parse": [], "aborted": [], "new": [], "cfg": [], "tp5": [], "mutate": [], "inspect": [], "variant": [], "read": [], "eqv": [], "arrays": [], "dupkey": [], "ref": []}
     pool_src = []
 
     def add(op, *families):
@@ -411,6 +411,11 @@ def _build_catalogue_body():
             eqv.append(len(group))
             if len(eqv) >= 24:
                 break
+    # frames that NAME another message (ACK-ACK / ACK-NAK / CFG-MSG): str() resolves the reference
+    for _ in range(70):
+        fr, _note = device.ubx_ref(rng)
+        mm = 0 if fr[2] == 0x05 else rng.choice((1, 2, 3)) if len(fr) <= 11 else 1
+        add({"o": "parse", "hex": fr.hex(), "mm": mm if fr[2] != 0x05 else 0, "val": 1, "pbf": 1}, "parse", "ref")
     # messages with array-valued attributes built from keywords (nominal arrays), plain and "poked"
     for e in cat:
         if not e["arrays"] or e["typ"] is not None:
@@ -843,6 +848,8 @@ def _pick_ops(rng, cat, n, flavour):
             i = rng.choice(fam["variant"] + fam["tp5"])
         elif flavour == "mutate" and roll < 0.5:
             i = rng.choice(fam["mutate"])
+        elif flavour == "ref" and roll < 0.8:
+            i = rng.choice(fam["ref"])
         elif flavour == "cfg" and roll < 0.7:
             i = rng.choice(fam["dupkey"]) if fam["dupkey"] and rng.random() < 0.3 else rng.choice(fam["cfg"])
         elif flavour == "arrays" and roll < 0.7 and fam["arrays"]:
@@ -870,7 +877,7 @@ def generate(seed: int, tier: str = "quick") -> dict:
     cat = build_catalogue()
     r_cfg = core.stream(seed, "config")
     r_ops = core.stream(seed, "threads")
-    flavour = r_cfg.choice(("uniform", "uniform", "family", "family", "aborted", "variant", "variant", "mutate", "eqv", "arrays", "cfg"))
+    flavour = r_cfg.choice(("uniform", "uniform", "family", "family", "aborted", "variant", "variant", "mutate", "eqv", "arrays", "cfg", "ref"))
     if r_cfg.random() < 0.5:
         n = r_cfg.choice((5, 10, 20, 40, 80, 200))
         ops = _pick_ops(r_ops, cat, n, flavour)
